@@ -2,7 +2,7 @@
 
 use std::collections::BTreeSet;
 
-use cosmwasm_std::{to_binary, Uint128};
+use cosmwasm_std::{to_binary, Binary, Uint128};
 use cw20::Cw20ReceiveMsg;
 use haloswap::asset::{Asset, AssetInfo, PairInfo};
 use haloswap::pair::{ReverseSimulationResponse, SimulationResponse};
@@ -642,6 +642,32 @@ impl Sim {
                 }})),
                 false,
             ));
+            // internal messages smuggled inside a cw20 Receive wrapper whose `sender` field names
+            // a privileged account
+            for claimed in [m.router.clone(), m.owner.clone(), m.factory.clone()] {
+                let inner_op = serde_json::json!({"execute_swap_operation": {
+                    "operation": {"halo_swap": {"offer_asset_info": p.infos[0], "ask_asset_info": p.infos[1]}},
+                    "to": stranger
+                }});
+                let inner_assert = serde_json::json!({"assert_minimum_receive": {
+                    "asset_info": p.infos[0], "prev_balance": "0", "minimum_receive": "0", "receiver": stranger
+                }});
+                for inner in [inner_op, inner_assert] {
+                    let w = Cw20ReceiveMsg {
+                        sender: claimed.clone(),
+                        amount: Uint128::new(1),
+                        msg: Binary::from(inner.to_string().as_bytes()),
+                    };
+                    msgs.push((m.router.clone(), j(serde_json::json!({ "receive": w })), false));
+                }
+                let inner_dec = serde_json::json!({"update_native_token_decimals": {"denom": denom, "asset_decimals": [1, 2]}});
+                let w = Cw20ReceiveMsg {
+                    sender: claimed.clone(),
+                    amount: Uint128::new(1),
+                    msg: Binary::from(inner_dec.to_string().as_bytes()),
+                };
+                msgs.push((p.addr.clone(), j(serde_json::json!({ "receive": w })), false));
+            }
             msgs.push((
                 m.router.clone(),
                 j(serde_json::json!({"assert_minimum_receive": {
